@@ -92,6 +92,13 @@ Theorem C03_counter_step : forall blanks AND s l nm k,
   dicts (x mx (fst r)) = dicts (x mx s) /\ stacks (x mx (fst r)) = stacks (x mx s).
 Proof. exact counter_step. Qed.
 Print Assumptions C03_counter_step.
+Theorem C03_counter_expr_step : forall blanks AND s l nm e,
+  let r := do_agg blanks AND s l (CounterE nm e) in
+  lookup nm (vars (x mx (fst r))) = Some (VI (num_of (lookup nm (vars (x mx s))) + fst (neval blanks s l e))) /\
+  (forall v, nm <> v -> lookup v (vars (x mx (fst r))) = lookup v (vars (x mx s))) /\
+  dicts (x mx (fst r)) = dicts (x mx s) /\ stacks (x mx (fst r)) = stacks (x mx s).
+Proof. exact counter_expr_step. Qed.
+Print Assumptions C03_counter_expr_step.
 Theorem C03_sum_step : forall blanks AND s l nm e,
   let r := do_agg blanks AND s l (Sum nm e) in
   lookup nm (vars (x mx (fst r))) = Some (VF (num_of (lookup nm (vars (x mx s))) + fst (neval blanks s l e))) /\
